@@ -35,6 +35,6 @@ def run(rep, tier, seed, replay=None, proof_ok=True):
     q = pc.detect_pquirks()
     rep.coverage['quirks_detected'] = dict(zip(pc.PQUIRKS, q))
     pc.pyb_known(rep, q, 'C04')
-    dis = pc.correspond(rep, tier, seed + 1, q, view, 120, 3000)
+    dis = pc.correspond(rep, tier, seed + 1, q, view, 120, 3000, e2e=True)
     pc.report(rep, dis, 'pybind wrap_file vs Pybind/Gen.v+Render.v on the C04 view (binding bodies)')
     return 0
